@@ -89,6 +89,22 @@ def gen_cases(ctx):
             cases.append(('RIGHT', (s, n)))
             cases.append(('MID', (s, 1 + n, 2)))
             cases.append(('FIND', ('l', s, 1 + n)))
+    # numbers passed where a text is expected are first converted to their text form (ints: decimal numeral)
+    for z in [0, 1, 7, 10, 100, 120, 1050, 12345, 1000000, -10, -5, 2000, 90, 101]:
+        cases.append(('LEN', (z,)))
+        cases.append(('UPPER', (z,)))
+        cases.append(('TRIM', (z,)))
+        for n in (0, 1, 2, 3, 9):
+            cases.append(('LEFT', (z, n)))
+            cases.append(('RIGHT', (z, n)))
+            cases.append(('MID', (z, 2, n)))
+        cases.append(('EXACT', (z, str(z))))
+        cases.append(('EXACT', (str(z), z)))
+        cases.append(('CONCAT', (z, '%')))
+        cases.append(('CONCAT', (z, z)))
+        cases.append(('FIND', (0, z, 1)))
+        cases.append(('FIND', ('0', z, 2)))
+        cases.append(('REPLACE', (z, 2, 1, 0)))
     # random longer texts
     nrand = 400000 if thorough else 1500
     alpha2 = 'abAB "\'é,;:'
@@ -103,8 +119,21 @@ def gen_cases(ctx):
     return cases
 
 
-def wire_args(args):
-    return [w_text(a) if isinstance(a, str) else wnum(a) for a in args]
+TEXT_POS = {'LEN': (0,), 'UPPER': (0,), 'LOWER': (0,), 'TRIM': (0,), 'LEFT': (0,), 'RIGHT': (0,), 'MID': (0,),
+            'EXACT': (0, 1), 'FIND': (0, 1), 'REPLACE': (0, 3)}
+
+
+def wire_args(args, fn=None):
+    out = []
+    for i, a in enumerate(args):
+        textpos = fn == 'CONCAT' or i in TEXT_POS.get(fn, ())
+        if isinstance(a, str):
+            out.append(w_text(a))
+        elif textpos and isinstance(a, int) and not isinstance(a, bool):
+            out.append(w_text(str(a)))      # the decimal numeral is the text form of an int
+        else:
+            out.append(wnum(a))
+    return out
 
 
 def formula_of(fn, args):
@@ -126,7 +155,7 @@ def run(ctx):
                 '(exact, including the error code); non-trivial = distinct (function, arguments) whose '
                 'reference result is a non-empty text, a position, or an error')
     cases = gen_cases(ctx)
-    lines = ['\t'.join(['C17', fn] + wire_args(args)) for fn, args in cases]
+    lines = ['\t'.join(['C17', fn] + wire_args(args, fn)) for fn, args in cases]
     resp = ctx.driver.batch(lines)
     res.exhaustive = True
     via_formula = 0
@@ -135,7 +164,7 @@ def run(ctx):
         if 'impl' not in d:
             raise RuntimeError(f'driver: {r!r} for {line!r}')
         impl, spec = d['impl'], d['spec']
-        if fn in ('UPPER', 'LOWER') and not all(ord(c) < 128 for c in args[0]):
+        if fn in ('UPPER', 'LOWER') and isinstance(args[0], str) and not all(ord(c) < 128 for c in args[0]):
             continue
         real = call_real(xl.FUNCTIONS[fn], *args)
         res.evaluations += 1
@@ -166,7 +195,7 @@ def run(ctx):
     for fn, args in sample[::step]:
         if any(isinstance(a, float) for a in args) or len(args) > 20:
             continue
-        if fn in ('UPPER', 'LOWER') and not all(ord(c) < 128 for c in args[0]):
+        if fn in ('UPPER', 'LOWER') and isinstance(args[0], str) and not all(ord(c) < 128 for c in args[0]):
             continue
         f = formula_of(fn, args)
         direct = call_real(xl.FUNCTIONS[fn], *args)
